@@ -359,8 +359,8 @@ def needs_default_ok(d):
 HEADER = """#![allow(dead_code, unused_imports, unused_variables, non_camel_case_types, non_snake_case)]
 use vh::dv;
 """
+RGB_DECL = "#[derive(scale_info::TypeInfo, Clone, Copy, Default)] pub struct Rgb(pub u32);\n"
 VALUE_HEADER = """
-#[derive(scale_info::TypeInfo, Clone, Copy, Default)] pub struct Rgb(pub u32);
 impl Rgb {
     pub fn bytes(&self) -> [u8; 3] { let b = self.0.to_be_bytes(); [b[1], b[2], b[3]] }
     pub fn pair(&self) -> (u16, u8) { ((self.0 >> 8) as u16, self.0 as u8) }
@@ -387,7 +387,7 @@ def inst_ty(d):
     return full_path(d) + ("<" + ", ".join(inst) + ">" if inst else ""), subst
 
 def program(decls, seed, with_values, nvals):
-    out = [HEADER + (VALUE_HEADER if with_values else "")]
+    out = [HEADER + RGB_DECL + (VALUE_HEADER if with_values else "")]
     main = ["fn main() {", "    let mut o = dv::Out::new(%d, %d);" % (seed, nvals)]
     for d in decls:
         mods = ["d%d" % d["id"]] + d["mods"]
